@@ -136,8 +136,8 @@ def replace_ref(text, oldvalue, newvalue="n/a"):
     Returns:
         str: The modified string with the ref replaced or removed.
     """
-    # If it's not n/a, we can just replace directly.
-    if newvalue != "n/a":
+    # If it's not n/a (or empty, e.g. a categorical cell that selects nothing), we can just replace directly.
+    if newvalue and newvalue != "n/a":
         return text.replace(oldvalue, newvalue)
 
     def _remover(match):
